@@ -2068,8 +2068,9 @@ class C07(ProverCheck):
                         faults["lie-wire"] = tried
                         probes["dead_hints_attacked"] = len(dead_hints)
         nt = P.plan_digest(plan) if dead_seen else None
-        if tr.type_leak:
+        if tr.type_leak or tr.nonbool_guard:
             viol = []
+            probes["run_not_judged"] = 1
         # de-duplicate
         out = []
         for v in viol:
